@@ -29,9 +29,16 @@ func register(id string, run func(p *Prog, r *Report)) {
 }
 
 func loadRepo(repo string, overlay map[string][]byte) (*Prog, error) {
-	p, err := Load(repo, []string{"GOFLAGS=-mod=mod", "GOPROXY=off", "GOWORK=off"}, overlay)
+	env := []string{"GOFLAGS=-mod=mod", "GOPROXY=off", "GOWORK=off"}
+	p, err := Load(repo, env, overlay)
 	if err != nil {
 		return nil, err
+	}
+	// functions no rule knows are inlined into their callers (inline.go); identity on the reference tree
+	if os.Getenv("ICECHECK_NOINLINE") == "" {
+		q, notes := inlineUnknownHelpers(p, func(ov map[string][]byte) (*Prog, error) { return Load(repo, env, ov) })
+		q.InlineNotes = notes
+		p = q
 	}
 	p.Config = "linux/amd64, no build tags, non-test files"
 	return p, nil
@@ -67,6 +74,15 @@ func runProperty(id, tier string, seed int64, repo, verif string, quiet bool) (c
 		return r.Finish(verif, known)
 	}
 	r = NewReport(id, tier, seed, p)
+	if len(p.InlineNotes) > 0 {
+		r.Extra["helper_inlining"] = p.InlineNotes
+		for _, n := range p.InlineNotes {
+			fmt.Println("  inlining:", n)
+		}
+	}
+	if p.Normalized > 0 {
+		r.Extra["index_loops_read_as_range"] = p.Normalized
+	}
 	pc.Run(p, r)
 	if tier == "thorough" {
 		runThorough(id, p, r, repo)
@@ -83,6 +99,7 @@ func main() {
 	explain := flag.String("explain", "", "violation report to re-derive")
 	list := flag.Bool("list", false, "list registered properties")
 	mut := flag.String("mutants", "", "development: run the overlay catalogue of a property (or 'all')")
+	genRef := flag.Bool("gen-refnames", false, "development: print refnames.go for the tree in -repo")
 	prb := flag.Bool("probes", false, "development: run the whole-program probes against every property and print what changes")
 	flag.Parse()
 	verifDirGlobal = *verif
@@ -108,6 +125,9 @@ func main() {
 	}
 	if *mut != "" {
 		os.Exit(devMutants(*mut, *repo))
+	}
+	if *genRef {
+		os.Exit(genRefNames(*repo))
 	}
 	if *prb {
 		os.Exit(devProbes(*repo, *verif))
